@@ -8,9 +8,11 @@ from .spec import REGISTRY
 from .symexec import Exec, Unsupported
 
 
-def verify_one(qual, mode="q", timeout_ms=10000, verbose=False, variant=None, k=4):
+def verify_one(qual, mode="q", timeout_ms=10000, verbose=False, variant=None, k=4, skip=None, only_props=None):
     spec = REGISTRY[qual]
     ex = Exec(mode=mode, timeout_ms=timeout_ms, verbose=verbose, k=k)
+    ex.skip = set(skip or ())
+    ex.only_props = set(only_props) if only_props else None
     t = time.time()
     try:
         obs = ex.verify(spec, variant)
